@@ -69,6 +69,13 @@ def run(ctx):
                     req = {"op": kind, "cache": cache, "key": rng.choice(keys)}
                 elif kind == "remove_hash":
                     req = {"op": kind, "cache": cache, "sri": rng.choice(sris)}
+                    if rng.random() < 0.3:
+                        # an address that lists hashes of several algorithms: the content it names is the one of its
+                        # strongest hash - nothing else may go, whether or not that content is there
+                        extra = rng.choice(sris)
+                        ghost = ref.sri(rng.choice(["sha512", "sha384", "sha256"]), rng.randbytes(9))
+                        req["sri"] = " ".join(dict.fromkeys(rng.sample([req["sri"], extra, ghost], 3)[:rng.choice([2, 3])]))
+                        ctx.count("multi_algorithm_remove_hash")
                 else:
                     req = {"op": "clear", "cache": cache}
                 batch.append({"mode": m, "req": req, "removal": kind})
